@@ -2,5 +2,6 @@ INIT ObsInit
 NEXT ObsNext
 INVARIANT WellFormed
 INVARIANT C17_NoPanic
+INVARIANT C17_NoStall
 POSTCONDITION Consumed
 CHECK_DEADLOCK FALSE
